@@ -1,4 +1,4 @@
-From Plotink Require Import Base.Prelude Spec.Firmware Model.EbbCalc.
+From Plotink Require Import Base.Prelude Base.Rnd Spec.Firmware Model.EbbCalc Model.EbbCalcRnd.
 Open Scope Z_scope.
 
 (* O(1) closed forms of the third-order recurrence (proved equal to the tick-by-tick spec: t3_closed_spec) *)
@@ -18,11 +18,13 @@ Inductive case02 :=
 Definition pair_eqb (a b : Z * Z) := (fst a =? fst b) && (snd a =? snd b).
 Definition check02 (c : case02) : Z :=
   match c with
+  (* bit 0: the output differs from the exact model or from the executed rounded model (Model/EbbCalcRnd.v: every mpmath operation rounded
+     to nearest-even at 103 bits, the float operations of rate_t3 at 53 bits) *)
   | K02d T rate accel jerk acc ipos iacc =>
-      code_of (negb (pair_eqb (move_dist_t3 T rate accel jerk acc) (ipos, iacc)))
+      code_of (negb (pair_eqb (move_dist_t3 T rate accel jerk acc) (ipos, iacc) && pair_eqb (move_dist_t3_r (round_ne 103) T rate accel jerk acc) (ipos, iacc)))
               (negb (pair_eqb (t3_closed T rate accel jerk acc) (ipos, iacc)))
   | K02r T rate accel jerk irate =>
-      code_of (negb (rate_t3 T rate accel jerk =? irate)) (negb (t3_rate_closed T rate accel jerk =? irate))
+      code_of (negb ((rate_t3 T rate accel jerk =? irate) && (rate_t3_r (round_ne 53) T rate accel jerk =? irate))) (negb (t3_rate_closed T rate accel jerk =? irate))
   | K02z T rate accel acc ipos iacc lpos lacc =>
       code_of (negb (pair_eqb (move_dist_t3 T rate accel 0 acc) (ipos, iacc)))
               (negb (pair_eqb (ipos, iacc) (lpos, lacc) && pair_eqb (t3_closed T rate accel 0 acc) (ipos, iacc)))
